@@ -1124,6 +1124,7 @@ var generators = []struct {
 	{"slip10", []string{"Slip10", "Secp256k1"}, genSlip10},
 	{"secp256k1code", []string{"Secp256k1Code"}, genSecp256k1Code},
 	{"bip39code", []string{"Bip39Code"}, genBip39Code},
+	{"elliptickeycode", []string{"EllipticKeyCode"}, genEllipticKeyCode},
 	{"ed", []string{"Ed"}, genEd},
 	{"deps", []string{"Deps"}, genDeps},
 	{"addresscode", []string{"AddressCode"}, genAddressCode}, // stage 11 (loops_iface.go)
